@@ -41,10 +41,32 @@ COQ_TYPE = {
     "bytearray": "list Z", "intseq": "list Z", "list_int": "list Z", "list_val": "list val",
     "list_str": "list (list Z)", "fmt": "list Z", "tok": "Z", "opt_int": "option Z",
     "val": "val", "tuple_val": "list val", "pair_int": "(Z * Z)", "list_tok": "list Z",
+    "frame": "nat", "list_frame": "list nat",
 }
+
+
+def coq_type(ty):
+    """Gallina type of a translator type; tuple(a,b,...) -> product"""
+    if ty.startswith("tuple(") and ty.endswith(")"):
+        return "(" + " * ".join(coq_type(t) for t in ty[6:-1].split(",")) + ")"
+    return COQ_TYPE[ty]
+
+
+def compatible(ty, want):
+    """value of type ty may be returned where `want` is declared ([] has type list_unknown)"""
+    if ty == want:
+        return True
+    if ty == "list_unknown" and want.startswith("list_"):
+        return True
+    if ty.startswith("tuple(") and want.startswith("tuple("):
+        a, b = ty[6:-1].split(","), want[6:-1].split(",")
+        return len(a) == len(b) and all(compatible(x, y) for x, y in zip(a, b))
+    return False
 MUTABLE = {"bytearray", "list_int", "list_val", "list_unknown", "intseq", "list_str"}
 SEQ_ELT = {"str": "char", "bytes": "int", "bytearray": "int", "list_int": "int",
-           "list_tok": "tok", "list_val": "val", "list_str": "str"}
+           "list_tok": "tok", "list_val": "val", "list_str": "str", "list_frame": "frame"}
+# list_frame: a list of opaque object identities (nat ids).  It is read-only for the translator
+# (no mutating method is accepted on it), so aliasing it (n = near) is harmless.
 BYTESLIKE = {"bytes", "bytearray"}
 EXC = {"ValueError", "IndexError", "TypeError"}
 
@@ -69,11 +91,12 @@ def zlit(n):
 
 
 class Var(object):
-    __slots__ = ("ty", "alias")
+    __slots__ = ("ty", "alias", "param")
 
-    def __init__(self, ty, alias=False):
+    def __init__(self, ty, alias=False, param=False):
         self.ty = ty
         self.alias = alias  # still the caller's object (parameter of mutable type)
+        self.param = param  # still bound to the parameter object itself (never rebound)
 
 
 def tuple_pat(names):
@@ -174,6 +197,9 @@ class FnTranslator(object):
         self.fresh = 0
         self.uses_fuel = False
         self.mutates = list(sig.get("mutates", []))
+        # attributes of parameters that are passed in as extra arguments:
+        #   sig["attrs"] = {("far", "outline"): ("far_outline", "list_frame")}
+        self.attrs = dict(sig.get("attrs", {}))
 
     # ---------------------------------------------------------------- helpers
     def tmp(self):
@@ -215,7 +241,20 @@ class FnTranslator(object):
         if isinstance(e, ast.BoolOp):
             parts = [self.truth(v, env) for v in e.values]
             if any(p for p, _ in parts[1:]):
-                raise Unsupported("raising operand after a short-circuit operator", e)
+                # a later operand can raise: it must be evaluated only if the earlier ones do not decide
+                if any(isinstance(n, ast.Call) and isinstance(n.func, ast.Attribute) and n.func.attr == "pop"
+                       for n in ast.walk(e)):
+                    raise Unsupported("pop() under a short-circuit operator", e)
+                is_and = isinstance(e.op, ast.And)
+                p_last, c_last = parts[-1]
+                code = self.wrap(p_last, "Ok %s" % c_last)
+                for p_k, c_k in reversed(parts[1:-1]):
+                    inner = ("(if %s then\n%s\nelse Ok false)" if is_and else "(if %s then Ok true else\n%s)") % (c_k, code)
+                    code = self.wrap(p_k, inner)
+                p0, c0 = parts[0]
+                t = self.tmp()
+                code = ("(if %s then\n%s\nelse Ok false)" if is_and else "(if %s then Ok true else\n%s)") % (c0, code)
+                return p0 + [(t, code)], t
             op = " && " if isinstance(e.op, ast.And) else " || "
             return parts[0][0], "(" + op.join(c for _, c in parts) + ")"
         p, c, ty = self.expr(e, env)
@@ -248,12 +287,18 @@ class FnTranslator(object):
             if isinstance(e.value, ast.Name) and e.value.id == "string" and e.attr == "hexdigits" \
                     and "string" not in env:
                 return [], "py_hexdigits", "str"
+            if isinstance(e.value, ast.Name) and (e.value.id, e.attr) in self.attrs and e.value.id in env \
+                    and env[e.value.id].param:
+                nm, ty = self.attrs[(e.value.id, e.attr)]
+                return [], cname(nm), ty
             raise Unsupported("attribute", e)
         if isinstance(e, ast.Tuple):
-            if len(e.elts) == 2:
-                ps = [self.expr(x, env) for x in e.elts]
-                if all(p[2] == "int" for p in ps):
-                    return self.lift([(p[0], p[1]) for p in ps], lambda a: "(%s, %s)" % (a[0], a[1]), "pair_int")
+            ps = [self.expr(x, env) for x in e.elts]
+            if len(ps) == 2 and all(p[2] == "int" for p in ps):
+                return self.lift([(p[0], p[1]) for p in ps], lambda a: "(%s, %s)" % (a[0], a[1]), "pair_int")
+            if len(ps) >= 2 and all(p[2] in ("list_frame", "list_unknown", "frame", "int", "bool") for p in ps):
+                return self.lift([(p[0], p[1]) for p in ps], lambda a: "(" + ", ".join(a) + ")",
+                                 "tuple(" + ",".join(p[2] for p in ps) + ")")
             raise Unsupported("tuple expression", e)
         if isinstance(e, ast.List):
             ps = [self.expr(x, env) for x in e.elts]
@@ -373,6 +418,14 @@ class FnTranslator(object):
                     return self.lift([(ap, a), (bp, b)], lambda x: "(negb (py_memZ %s %s))" % (x[0], x[1]), "bool")
                 return self.lift([(ap, a), (bp, b)], lambda x: "(py_memZ %s %s)" % (x[0], x[1]), "bool")
             raise Unsupported("membership test on %s in %s" % (aty, bty), e)
+        if len(e.ops) == 1 and isinstance(e.ops[0], (ast.Is, ast.IsNot)):
+            ap, a, aty = self.expr(operands[0], env)
+            bp, b, bty = self.expr(operands[1], env)
+            if aty == "frame" and bty == "frame":
+                if isinstance(e.ops[0], ast.IsNot):
+                    return self.lift([(ap, a), (bp, b)], lambda x: "(negb (Nat.eqb %s %s))" % (x[0], x[1]), "bool")
+                return self.lift([(ap, a), (bp, b)], lambda x: "(Nat.eqb %s %s)" % (x[0], x[1]), "bool")
+            raise Unsupported("identity test on %s, %s" % (aty, bty), e)
         cs = [self.expr(x, env) for x in operands]
         for c in cs[2:]:
             if c[0]:   # later operands are evaluated only if the earlier tests succeed
@@ -400,7 +453,7 @@ class FnTranslator(object):
 
     def subscript(self, e, env):
         vp, v, vty = self.expr(e.value, env)
-        if vty not in ("str", "bytes", "bytearray", "list_int", "list_val"):
+        if vty not in ("str", "bytes", "bytearray", "list_int", "list_val", "list_frame"):
             raise Unsupported("subscript of %s" % vty, e)
         sl = e.slice
         if isinstance(sl, ast.Slice):
@@ -487,6 +540,8 @@ class FnTranslator(object):
                 if tys == ["str", "int"] and self.is_lit_int(e.args[1]) and e.args[1].value == 16:
                     return self.lift_mon(parts[:1], lambda x: "py_int_hex %s" % x[0], "int")
                 raise Unsupported("int() of %s" % tys, e)
+            if nm in ("min", "max") and tys == ["int", "int"]:
+                return self.lift(parts, lambda x: "(Z.%s %s %s)" % (nm, x[0], x[1]), "int")
             if nm == "str" and tys == ["int"]:
                 return self.lift(parts, lambda x: "(py_str_int %s)" % x[0], "str")
             if nm == "ord" and len(tys) == 1 and tys[0] in ("bytes", "bytearray", "str"):
@@ -679,7 +734,7 @@ class FnTranslator(object):
         if isinstance(s, ast.If):
             return self.if_stmt(s, rest, env, tail, mon, ret)
         if isinstance(s, ast.For):
-            return self.for_stmt(s, env, cont, mon)
+            return self.for_stmt(s, env, cont, mon, ret)
         if isinstance(s, ast.While):
             return self.while_stmt(s, env, cont, mon)
         raise Unsupported("statement", s)
@@ -898,7 +953,7 @@ class FnTranslator(object):
         return self.wrap(tp, "bind (if %s then\n%s\nelse\n%s) (fun %s =>\n%s)" % (tc, b, o, pat, after))
 
     # -- loops ----------------------------------------------------------------------------
-    def loop_state(self, body, env, extra_bound, node):
+    def loop_state(self, body, env, extra_bound, node, ret=None):
         """state variables of a loop and the entry environment with list_unknown resolved"""
         av = assigned_vars(body)
         state = [v for v in av if v in env and v not in extra_bound]
@@ -912,7 +967,7 @@ class FnTranslator(object):
             envb = dict(envl)
             for k, ty in extra_bound.items():
                 envb[k] = Var(ty)
-            self.block(body, envb, probe, True, None)
+            self.block(body, envb, probe, True, ret)
             changed = False
             for v in state:
                 if v not in ends["e"]:
@@ -928,7 +983,7 @@ class FnTranslator(object):
                 return state, envl, av
         raise Unsupported("loop state types do not stabilise", node)
 
-    def for_stmt(self, s, env, cont, mon):
+    def for_stmt(self, s, env, cont, mon, ret=None):
         if s.orelse:
             raise Unsupported("for-else", s)
         it = s.iter
@@ -959,7 +1014,11 @@ class FnTranslator(object):
         for k in extra:
             if k in assigned_vars(s.body):
                 raise Unsupported("loop target %r reassigned in the body" % k, s)
-        state, envl, av = self.loop_state(s.body, env, extra, s)
+        has_return = any(isinstance(n, ast.Return) for b in s.body for n in ast.walk(b))
+        if has_return and ret is None:
+            raise Unsupported("return inside a nested loop or a joined conditional", s)
+        state, envl, av = self.loop_state(s.body, env, extra, s,
+                                          (lambda p, c, ty, e_, n_: "tt") if has_return else None)
         envb = dict(envl)
         for k, ty in extra.items():
             envb[k] = Var(ty)
@@ -971,6 +1030,24 @@ class FnTranslator(object):
             env2.pop(k, None)
         after = cont(env2)
         sp, st = lam_pat(state), tuple_pat(state)
+        if has_return:
+            # early exit: the body yields  inl state (go on)  |  inr value (return value)
+            if not mon:
+                raise NeedMon()
+            rtys = []
+
+            def inner_ret(p, c, ty, envr, node):
+                rtys.append((ty, envr, node))
+                return self.wrap(p, "Ok (inr %s)" % c)
+            body = self.block(s.body, envb, lambda e2: "Ok (inl %s)" % st, True, inner_ret)
+            tys = set(t for t, _, _ in rtys)
+            if len(tys) != 1:
+                raise Unsupported("returns of different types inside a loop: %s" % sorted(tys), s)
+            rty, renv, rnode = rtys[0]
+            rv = self.tmp()
+            out = ret([], rv, rty, env2, rnode)       # type check + in/out arguments as for any return
+            return self.wrap(ip, "bind (for_ret %s %s (fun %s %s =>\n%s)) (fun r_ =>\nmatch r_ with\n| inr %s => %s\n"
+                                 "| inl %s => %s\nend)" % (itc, st, sp, pat, body, rv, out, sp if state else "_", after))
         try:
             if ip:
                 raise NeedMon()
@@ -1007,7 +1084,9 @@ class FnTranslator(object):
     def translate(self):
         fd, sig = self.fdef, self.sig
         a = fd.args
-        if a.vararg or a.kwarg or a.kwonlyargs or a.posonlyargs or fd.decorator_list:
+        decos = [d.id for d in fd.decorator_list if isinstance(d, ast.Name)]
+        if a.vararg or a.kwarg or a.kwonlyargs or a.posonlyargs or len(decos) != len(fd.decorator_list) or \
+                decos != (["staticmethod"] if sig.get("staticmethod") else []):
             raise Unsupported("function signature form", fd)
         pnames = [x.arg for x in a.args]
         if pnames != [p[0] for p in sig["params"]]:
@@ -1017,7 +1096,11 @@ class FnTranslator(object):
         for pn, pty in sig["params"]:
             if pty not in COQ_TYPE:
                 raise Unsupported("parameter type %s" % pty, fd)
-            env[pn] = Var(pty, alias=pty in MUTABLE)
+            env[pn] = Var(pty, alias=pty in MUTABLE, param=True)
+        for (obj, _attr), (nm, ty) in self.attrs.items():
+            if obj not in env or nm in env or ty not in COQ_TYPE:
+                raise Unsupported("attrs declaration", fd)
+            env[nm] = Var(ty, alias=ty in MUTABLE, param=True)
         for m_ in self.mutates:
             if m_ not in env or env[m_].ty != "bytearray":
                 raise Unsupported("mutates declaration", fd)
@@ -1025,8 +1108,8 @@ class FnTranslator(object):
 
         def mk_ret(mon):
             def ret(p, c, ty, envr, node):
-                ok = (ty == rty or (rty == "bytes" and ty == "bytearray") or (rty == "bytearray" and ty == "bytes")
-                      or (rty == "int" and ty == "tok"))
+                ok = (compatible(ty, rty) or (rty == "bytes" and ty == "bytearray")
+                      or (rty == "bytearray" and ty == "bytes") or (rty == "int" and ty == "tok"))
                 if not ok:
                     raise Unsupported("return type %s, declared %s" % (ty, rty), node)
                 outs = []
@@ -1053,13 +1136,19 @@ class FnTranslator(object):
             self.fresh = 0
             body = self.block(fd.body, env, nofall, True, mk_ret(True))
             mon = True
-        cty = COQ_TYPE[rty]
+        cty = coq_type(rty)
         for mv in self.mutates:
             cty = "(%s * %s)" % (cty, COQ_TYPE[env[mv].ty])
-        params = " ".join("(%s : %s)" % (cname(pn), COQ_TYPE[pty]) for pn, pty in sig["params"])
+        plist = []
+        for pn, pty in sig["params"]:
+            for (obj, _attr), (nm, ty) in self.attrs.items():     # extra arguments precede their object
+                if obj == pn:
+                    plist.append("(%s : %s)" % (cname(nm), COQ_TYPE[ty]))
+            plist.append("(%s : %s)" % (cname(pn), COQ_TYPE[pty]))
+        params = " ".join(plist)
         fuel = "(fuel : nat) " if self.uses_fuel else ""
         text = "Definition %s %s%s : %s :=\n%s." % (
-            self.name, fuel, params, ("res (%s)" % cty) if mon else cty, indent(body))
+            sig.get("coq_name", self.name), fuel, params, ("res (%s)" % cty) if mon else cty, indent(body))
         return text, dict(mon=mon, fuel=self.uses_fuel, defaults=defaults)
 
 
@@ -1083,11 +1172,22 @@ def translate_module(source, sigs, modname, srcpath=""):
     tree = ast.parse(source)
     mod = Module(sigs)
     fdefs = {}
+    order = []
     for node in tree.body:
+        if isinstance(node, ast.ClassDef):
+            for sub in node.body:       # methods are addressed as "Class.method" in sigs
+                key = "%s.%s" % (node.name, sub.name) if isinstance(sub, ast.FunctionDef) else None
+                if key in sigs:
+                    if key in fdefs:
+                        raise Unsupported("method %s defined twice" % key, sub)
+                    fdefs[key] = sub
+                    order.append(key)
         if isinstance(node, ast.FunctionDef):
             if node.name in fdefs and node.name in sigs:
                 raise Unsupported("function %s defined twice" % node.name, node)
             fdefs[node.name] = node
+            if node.name in sigs:
+                order.append(node.name)
         elif isinstance(node, (ast.Assign, ast.AugAssign)):
             # a module-level rebinding of a translated name or of a builtin would change meanings
             for t in ast.walk(node):
@@ -1102,7 +1202,6 @@ def translate_module(source, sigs, modname, srcpath=""):
            "Require Import V.Lib.C40_PyRt.",
            "Open Scope Z_scope.", ""]
     # source order (callees are defined before callers, else call_user rejects)
-    order = [n.name for n in tree.body if isinstance(n, ast.FunctionDef) and n.name in sigs]
     missing = [n for n in sigs if n not in fdefs]
     if missing:
         raise Unsupported("functions missing from the source: %s" % missing)
@@ -1126,7 +1225,7 @@ REJECTED = [
     ("float", "def f(n):\n    return 1.5\n", ["int"]),
     ("unknown call", "def f(n):\n    return g(n)\n", ["int"]),
     ("None value", "def f(n):\n    return n if n else None\n", ["int"]),
-    ("return in loop", "def f(n):\n    for i in range(n):\n        if i:\n            return i\n    return 0\n", ["int"]),
+    ("return in while loop", "def f(n):\n    while n:\n        return n\n    return 0\n", ["int"]),
     ("lambda", "def f(n):\n    return (lambda x: x)(n)\n", ["int"]),
     ("global", "def f(n):\n    global z\n    z = n\n    return n\n", ["int"]),
     ("and as value", "def f(n, m):\n    return n and m\n", ["int", "int"]),
@@ -1138,10 +1237,14 @@ REJECTED = [
     ("str index", "def f(s):\n    return len(s[0])\n", ["str"]),
     ("fall off the end", "def f(n):\n    n += 1\n", ["int"]),
     ("star args", "def f(*a):\n    return 0\n", []),
-    ("raising operand after or", "def f(n, m):\n    if n or (1 << m):\n        return 1\n    return 0\n", ["int", "int"]),
+    ("identity test on ints", "def f(n, m):\n    if n is m:\n        return 1\n    return 0\n", ["int", "int"]),
+    ("mutating an identity list", "def f(l, x):\n    l.append(x)\n    return 0\n", ["list_frame", "frame"]),
     ("comprehension filter", "def f(n):\n    return sum([i for i in range(n) if i])\n", ["int"]),
 ]
 ACCEPTED = [
+    ("return in nested loop", "def f(n):\n    for i in range(n):\n        for j in range(i):\n            return j\n    return 0\n", ["int"]),
+    ("return in for loop", "def f(n):\n    for i in range(n):\n        if i:\n            return i\n    return 0\n", ["int"]),
+    ("raising operand after or", "def f(n, m):\n    if n or (1 << m):\n        return 1\n    return 0\n", ["int", "int"]),
     ("arith", "def f(n):\n    return (n << 2) | 1\n", ["int"]),
     ("loop", "def f(b):\n    t = 0\n    for x in b:\n        t += x\n    return t\n", ["bytes"]),
 ]
